@@ -562,7 +562,7 @@ func TestVerif(t *testing.T) {
 		if done == total {
 			completedAll = b
 		} else {
-			vrep.Cap("deviation bound %d completed for %d of %d scenarios within the wall-clock budget (bound %d is complete for all)", b, done, total, completedAll)
+			vrep.Cap("deviation bound %d completed for %d of %d scenarios within the wall-clock and memory budget (bound %d is complete for all)", b, done, total, completedAll)
 			break
 		}
 	}
